@@ -3,7 +3,7 @@ INVARIANT EmitFull
 CHECK_DEADLOCK FALSE
 CONSTANTS
   MaxDepth = 2
-  Ops = {"ins", "rep", "del", "case"}
+  Ops = {"ins", "rep", "del", "case", "dup"}
   PosClasses = {"first", "second", "middle", "before_last", "last", "end"}
   CharClasses = {"LF", "CR", "TAB", "NUL", "VT", "FF", "FS", "US", "NEL", "LS", "PS", "ZWSP", "BOM", "NBSP", "SHY",
                  "L_DASH", "L_DOT", "L_SLASH", "L_COLON", "L_STAR", "L_COMMA", "L_APOS", "L_SPACE", "L_DIGIT",
